@@ -2327,9 +2327,6 @@ task_cb(EV_P_ ev_periodic *w, int UNUSED(revents))
 	if (t->nsim < (unsigned int)t->t->max_simul) {
 		pid_t p;
 
-		/* indicate that we might want to reuse the loop */
-		ev_loop_fork(EV_A);
-
 		if (LIKELY((p = run_task(t)) > 0)) {
 			ev_child *c = make_chld();
 
